@@ -11,11 +11,16 @@ PROPS = {
  "C05": dict(needs=REFINE + ["LinkStack", "Progress"], gen=["GenStack"], slices=[("slices_core", "core_programs")]),
  "C07": dict(needs=REFINE + ["RunG", "Pure", "IOSpec"], gen=[], slices=[("slices_core", "io_trees")]),
  "C10": dict(needs=REFINE + ["RunG", "Exc", "Deep", "LinkErr"], gen=["GenErr"], slices=[("slices_core", "core_programs")]),
- "C11": dict(needs=CORE + ["Float", "Arith", "LinkArith"], gen=["GenArith"], slices=[("slices_core", "int_kernels")]),
+ "C11": dict(needs=CORE + ["Float", "Arith", "LinkArith"], gen=["GenArith"], slices=[("slices_core", "int_kernels"), ("slices_values", "c11_tower")]),
  "C19": dict(needs=CORE + ["Events"], gen=[], slices=[("slices_core", "core_programs"), ("slices_core", "io_trees")]),
  "C01": dict(needs=["Base", "Num", "Lex", "Jamo", "SpecC01"], gen=["GenParse", "GenTS"], slices=[("slices_text", "c01_exhaustive"), ("slices_text", "c01_model_points"), ("slices_text", "c01_respell")]),
  "C08": dict(needs=["Base", "Num", "NumProofs", "Lex", "ParseProofs", "Strings", "Builtins", "Interp", "LinkNames"], gen=["GenParse", "GenNames", "GenIO"], slices=[("slices_text", "c08_codec"), ("slices_text", "c08_spellings")]),
  "C09": dict(needs=["Base", "Num", "NumProofs", "Lex", "ParseProofs"], gen=["GenParse"], slices=[("slices_text", "c09_parse")]),
  "C14": dict(needs=["Files", "FilesProofs", "LinkNames"], gen=["GenIO"], slices=[("slices_world", "c14_histories"), ("slices_world", "c14_faults")]),
  "C15": dict(needs=["ImpSearch", "ImportProofs"], gen=[], slices=[("slices_world", "c15_search"), ("slices_world", "c15_semantics")]),
+ "C06": dict(needs=CORE + ["Float", "Eq"], gen=[], slices=[("slices_values", "c06_eq")]),
+ "C12": dict(needs=CORE + ["SeqProofs", "SliceReal"], gen=[], slices=[("slices_values", "c12_seq")]),
+ "C16": dict(needs=CORE + ["RunG", "Codec", "Bits"], gen=[], slices=[("slices_values", "c16_codecs")]),
+ "C17": dict(needs=CORE + ["RunG", "Codec", "Bits", "LinkBits"], gen=["GenBitwise"], slices=[("slices_values", "c17_bits")]),
+ "C18": dict(needs=CORE + ["PrintInt"], gen=[], slices=[("slices_values", "c18_print"), ("slices_values", "c18_cli")]),
 }
